@@ -173,7 +173,11 @@ class G:
                 return ("prefix", p, ("sym", r.choice(SYMS[:6])))
             inner = self.form(d - 1)
             # (a splice directly under a syntax quote is malformed: "Cannot splice outside collection")
-            while inner[0] == "discard" or (p == "`" and inner[0] == "prefix" and inner[1] == "~@"):
+            def is_splice(f):
+                # a splice that would sit directly under the syntax quote, possibly through a reader conditional or metadata
+                return (f[0] == "prefix" and f[1] == "~@") or (f[0] == "rcond" and any(is_splice(x) for x in f[1])) or (f[0] == "meta" and is_splice(f[2]))
+
+            while inner[0] == "discard" or (p == "`" and is_splice(inner)):
                 inner = self.form(d - 1)
             return ("prefix", p, inner)
         if t < 0.9:
